@@ -91,6 +91,53 @@ func H06_concurrent() {
 	vsymAssert(!e.tty.running, "the tty is stopped when Fini/Suspend returns")
 }
 
+// H06_chanfini: Fini while a ChannelEvents forwarder is blocked handing an event to a
+// consumer that does not receive: the forwarder still ends and closes its channel.
+func H06_chanfini() {
+	e := h01New("xterm-256color", 3, 1, false)
+	for e.s.HasPendingEvent() {
+		e.s.PollEvent()
+	}
+	n := vsymChoice("queued", 3)
+	for i := 0; i < n; i++ {
+		_ = e.s.PostEvent(NewEventInterrupt(nil))
+	}
+	ch := make(chan Event, 1)
+	ch <- NewEventInterrupt(nil) // full: the forwarder blocks on its first hand-over
+	quit := make(chan struct{})
+	done := make(chan struct{})
+	go func() {
+		e.s.ChannelEvents(ch, quit)
+		close(done)
+	}()
+	vsymRunBlocked()
+	if vsymChoice("end", 2) == 0 {
+		e.s.Fini()
+	} else {
+		_ = e.s.Suspend()
+		_ = e.s.Resume()
+		e.s.Fini()
+	}
+	vsymRunBlocked()
+	// all background goroutines have exited after Fini - also a forwarder whose consumer never receives again
+	returned := false
+	select {
+	case <-done:
+		returned = true
+	default:
+	}
+	vsymAssert(returned, "ChannelEvents returns after Fini even if its consumer is not receiving")
+	// the consumer comes back later: it must find the channel closed after at most the
+	// events that were in flight (a receive on a channel nobody will ever close blocks:
+	// the engine reports that path as blocked)
+	closed := false
+	for i := 0; i < n+3 && !closed; i++ {
+		_, ok := <-ch
+		closed = !ok
+	}
+	vsymAssert(closed, "ChannelEvents closes its channel after Fini even if its consumer was not receiving")
+}
+
 // H06_inert: after Fini every Screen call is harmless, PollEvent returns at once, a second Fini is a no-op.
 func H06_inert() {
 	e := h01New("xterm-256color", 3, 1, false)
